@@ -645,4 +645,8 @@ pub fn run(run: &mut Run) {
   run.prop("parsers", n_parsers, 16, 800, parser_strategy(), prop_parsers);
   run.prop("maxmsgsize_boundary", n_limit, 16, 300, limit_strategy(), prop_limit);
   crate::props::c07_l2::run(run);
+  // coverage-guided stage: arbitrary peer bytes into a real engine, oracle inside the target
+  if run.tier == Tier::Thorough || run.replay_case("fuzz_engine_stream").is_some() {
+    crate::fuzzstage::run(run, "engine_stream", 30_000);
+  }
 }
